@@ -85,6 +85,9 @@ void RescaledHmmLikelihood::fireParameterChanged(const ParameterList& pl)
 
   computeForward_();
   backLikelihoodUpToDate_ = false;
+  // Cached derivatives are no longer valid:
+  dVariable_ = "";
+  d2Variable_ = "";
 }
 
 /***************************************************************************************************************************/
